@@ -1306,6 +1306,14 @@ def corpus(res):
                                                     'point': list(point)}},
                               found_input=True)
         have = {c['name'] for c in t4.compositions} - {'m0'}
+        for comp in t4.compositions:
+            why = c09_oracle.block_density_failure(comp)
+            if why:
+                good = False
+                res.violation('impl-violation',
+                              f'corpus deck {name} {args}: {why}',
+                              {'input': {'deck': text, 'args': args}},
+                              found_input=True)
         orphans = [n for n, _ in t4.geomcomp if n != 'm0' and n not in have]
         if orphans:
             good = False
